@@ -504,16 +504,20 @@ def ask_model_parallel(driver, reqs, jobs):
     return [r for part in res for r in part]
 
 
-def shrink_case(mod, case, still_fails, budget=400):
+def shrink_case(mod, case, still_fails, budget=400, wall_s=None):
+    """Greedy shrinking with a step budget and a wall-clock budget (VERIF_SHRINK_S, default 180 s per failure): a
+    hanging implementation costs a watchdog period per candidate that still hangs, so the time is bounded."""
     if not hasattr(mod, "shrink"):
         return case
     cur, steps = case, 0
     improved = True
-    while improved and steps < budget:
+    t0 = time.time()
+    wall_s = float(os.environ.get("VERIF_SHRINK_S", "180")) if wall_s is None else wall_s
+    while improved and steps < budget and time.time() - t0 < wall_s:
         improved = False
         for cand in mod.shrink(cur):
             steps += 1
-            if steps > budget:
+            if steps > budget or time.time() - t0 >= wall_s:
                 break
             try:
                 if still_fails(cand):
@@ -524,12 +528,16 @@ def shrink_case(mod, case, still_fails, budget=400):
     return cur
 
 
-def oracle_fails(mod, case, case_timeout):
+def oracle_fails(mod, case, case_timeout, confirm=True):
+    """The oracle's message for the case ('' / None if it holds).  A watchdog timeout is confirmed by a solitary
+    re-run with ten times the budget; with confirm=False (used while shrinking a failure that IS a hang: the final
+    shrunk case is confirmed afterwards) the re-run has twice the budget only."""
     try:
         res = with_timeout(mod.run_impl, case_timeout, case)
     except CaseTimeout:
+        factor = 10 if confirm else 2
         try:
-            res = with_timeout(mod.run_impl, case_timeout * 10, case)
+            res = with_timeout(mod.run_impl, case_timeout * factor, case)
         except CaseTimeout:
             return f"no result within {case_timeout * 10}s (watchdog)"
     return mod.oracle(case, res)
@@ -708,9 +716,12 @@ def run_check(modname, argv=None):
             if k.get("property") == pid and k.get("signature") == sig:
                 known_lines.append(f"KNOWN-FINDING: property={pid} {k.get('what', sig)}")
                 return
-        small = shrink_case(mod, case, lambda c: bool(oracle_fails(mod, c, case_timeout)))
+        is_hang = "(watchdog)" in str(msg)
+        small = shrink_case(mod, case, lambda c: bool(oracle_fails(mod, c, case_timeout, confirm=not is_hang)))
         try:
-            small_msg = oracle_fails(mod, small, case_timeout) or msg
+            small_msg = oracle_fails(mod, small, case_timeout)
+            if not small_msg:       # (a hang accepted with the short budget did not confirm) keep the original case
+                small, small_msg = case, msg
         except Exception:
             small, small_msg = case, msg
         path = write_replay(pid, "failing-input", {"seed": seed, "tier": tier, "case": small, "original_case": case,
